@@ -7,7 +7,36 @@ import (
 	"golang.org/x/tools/go/ssa"
 )
 
+// findInstrs: the instructions of fn satisfying pred — and those of the helpers extracted from it since the pinned
+// commit (inlinable callees, see cut.go), which the path search walks into as well.
 func findInstrs(fn *ssa.Function, pred func(ssa.Instruction) bool) []ssa.Instruction {
+	var out []ssa.Instruction
+	if !inlinable(fn) && !scanBusy {
+		scanRoot = fn
+	}
+	seen := map[*ssa.Function]bool{fn: true}
+	var walk func(g *ssa.Function, depth int)
+	walk = func(g *ssa.Function, depth int) {
+		for _, b := range g.Blocks {
+			for _, in := range b.Instrs {
+				if pred(in) {
+					out = append(out, in)
+				}
+				if call, ok := in.(*ssa.Call); ok && depth < 2 {
+					if h := call.Call.StaticCallee(); inlinable(h) && !seen[h] {
+						seen[h] = true
+						walk(h, depth+1)
+					}
+				}
+			}
+		}
+	}
+	walk(fn, 0)
+	return out
+}
+
+// findInstrsIn: the instructions of fn itself (no helpers): for loops that visit every function anyway.
+func findInstrsIn(fn *ssa.Function, pred func(ssa.Instruction) bool) []ssa.Instruction {
 	var out []ssa.Instruction
 	for _, b := range fn.Blocks {
 		for _, in := range b.Instrs {
@@ -114,6 +143,13 @@ func strip2(v ssa.Value) ssa.Value {
 			v = x.X
 		case *ssa.Convert:
 			v = x.X
+		case *ssa.Parameter:
+			// inside a helper the path search walked into, a parameter is the caller's argument (see frameArgs)
+			a, ok := frameArgs[x]
+			if !ok || a == v {
+				return v
+			}
+			v = a
 		default:
 			return v
 		}
@@ -257,5 +293,66 @@ func siteIn(in ssa.Instruction, pred func(ssa.Instruction) bool) []ssa.Instructi
 			out = append(out, siteIn(x, pred)...)
 		}
 	})
+	return out
+}
+
+// blocksDeep: the blocks of fn and of the helpers extracted from it since the pinned commit (see findInstrs).
+func blocksDeep(fn *ssa.Function) []*ssa.BasicBlock {
+	var out []*ssa.BasicBlock
+	if !inlinable(fn) && !scanBusy {
+		scanRoot = fn
+	}
+	seen := map[*ssa.Function]bool{fn: true}
+	var walk func(g *ssa.Function, depth int)
+	walk = func(g *ssa.Function, depth int) {
+		out = append(out, g.Blocks...)
+		for _, b := range g.Blocks {
+			for _, in := range b.Instrs {
+				if call, ok := in.(*ssa.Call); ok && depth < 2 {
+					if h := call.Call.StaticCallee(); inlinable(h) && !seen[h] {
+						seen[h] = true
+						walk(h, depth+1)
+					}
+				}
+			}
+		}
+	}
+	walk(fn, 0)
+	return out
+}
+
+// argOfParam: p is a parameter of a helper extracted from f since the pinned commit (see findInstrs): the argument
+// f's (unique) call of that helper passes for it; nil when there is no such unique call.
+// (scanBusy: argOfParam itself scans with findInstrs; it must not move scanRoot)
+var scanBusy bool
+
+func argOfParam(f *ssa.Function, p *ssa.Parameter) ssa.Value {
+	if scanBusy {
+		return nil
+	}
+	scanBusy = true
+	defer func() { scanBusy = false }()
+	h := p.Parent()
+	idx := -1
+	for i, q := range h.Params {
+		if q == p {
+			idx = i
+		}
+	}
+	var out ssa.Value
+	n := 0
+	for _, in := range findInstrs(f, func(in ssa.Instruction) bool {
+		call, ok := in.(*ssa.Call)
+		return ok && call.Call.StaticCallee() == h
+	}) {
+		args := in.(*ssa.Call).Call.Args
+		if idx >= 0 && idx < len(args) {
+			out = args[idx]
+			n++
+		}
+	}
+	if n != 1 {
+		return nil
+	}
 	return out
 }
